@@ -266,6 +266,11 @@ func (g *gen) newHost(i int) HostSpec {
 			// several hosts on one certificate file
 			h.Crt = "shared"
 			h.Content = fmt.Sprintf("shared-v%d", g.certv)
+			for _, x := range g.hosts {
+				if x.Crt == "shared" {
+					h.Content = x.Content // one file, one content
+				}
+			}
 		case 1:
 			// one certificate replicated in several secrets: distinct files, identical content
 			// (so identical TLSHash)
